@@ -85,7 +85,9 @@ def _both(*fs):
 
 # ---- C01 / C02 arithmetic --------------------------------------------------------------------------------------
 for _op in ("add", "sub"):
-    row(_op, "BB", "B", prop=_arith_prop)(lanewise(_op))
+    row(_op, "BB", "B", types=INT_TYPES, prop="C01")(lanewise(_op))
+    # floating add/sub are single instructions: wiring proved with a shared uninterpreted adder (two IEEE adders do not compare in SAT)
+    row(_op, "BB", "B", types=FLOAT_TYPES, mode="ufadd", prop="C02")(lanewise(_op))
 row("mul", "BB", "B", types=INT_TYPES, mode="mul", prop="C01")(lanewise("mul"))
 row("mul", "BB", "B", types=FLOAT_TYPES, mode="uf", prop="C02")(lanewise("mul"))
 row("div", "BB", "B", types=INT_TYPES, mode="uf", prop="C01")(lanewise("div", pre="divpre"))
@@ -246,3 +248,88 @@ def _s_select(ctx):
     c, a, b = ctx.args
     R = ctx.ret = Arg("S", ctx.tid, None, scalar="__CPROVER_return_value")
     ctx.ensures.append("(%s == ((%s != 0) ? %s : %s))" % (R.lane(0), c.scalar, a.lane(0), b.lane(0)))
+
+
+# ---- C02: floating point -------------------------------------------------------------------------------------------
+def _predicate(spec):
+    def build(ctx):
+        R = ctx.ret = bind_ret(ctx, "M")
+        a = ctx.args[0]
+        ctx.ensures += conj([R.is_true_iff(i, ctx.spec(spec, a.lane(i))) for i in range(ctx.n)])
+        ctx.ensures += conj(R.wf())
+    return build
+
+
+for _op in ("isnan", "isinf", "isfinite", "is_flint", "is_even", "is_odd"):
+    row(_op, "B", "M", types=FLOAT_TYPES, prop="C02")(_predicate(_op))
+row("sqrt", "B", "B", types=FLOAT_TYPES, mode="uf", prop="C02")(lanewise("sqrt"))
+row("copysign", "BB", "B", types=FLOAT_TYPES, prop="C02")(lanewise("copysign"))
+row("bitofsign", "B", "B", types=FLOAT_TYPES, prop="C02")(lanewise("bitofsign"))
+
+
+def _relational(okspec, pre_nonan=False, pre_nonzero=False):
+    """postcondition given as a relation spec_<ok>(result, args...)"""
+    def build(ctx):
+        R = ctx.ret = bind_ret(ctx, "B")
+        ens = []
+        for i in range(ctx.n):
+            a = [x.lane(i) for x in ctx.args]
+            ens.append(ctx.spec(okspec, R.lane(i), *a))
+            if pre_nonan:
+                ctx.requires.append(" && ".join("!%s" % ctx.spec("isnan", x) for x in a))
+            if pre_nonzero:
+                ctx.requires.append("!%s && !%s" % (ctx.spec("iszero", a[0]), ctx.spec("isnan", a[0])))
+        ctx.ensures += conj(ens)
+    return build
+
+
+row("min", "BB", "B", types=FLOAT_TYPES, prop="C02")(_relational("minok", pre_nonan=True))
+row("max", "BB", "B", types=FLOAT_TYPES, prop="C02")(_relational("maxok", pre_nonan=True))
+row("sign", "B", "B", types=FLOAT_TYPES, prop="C02")(_relational("signok"))
+row("signnz", "B", "B", types=FLOAT_TYPES, prop="C02")(_relational("signnzok", pre_nonzero=True))
+
+
+def _float_fma(kind):
+    """result is the fused or the unfused evaluation (any operand-sign placement of the mathematically equal forms)"""
+    def build(ctx):
+        R = ctx.ret = bind_ret(ctx, "B")
+        T, W = ctx.T, ctx.w
+        ens = []
+        for i in range(ctx.n):
+            a, b, c = [x.lane(i) for x in ctx.args]
+            F = lambda x: "U2F%d(%s)" % (W, x)
+            U = lambda x: "F2U%d(%s)" % (W, x)
+            na, nb, nc = ctx.spec("neg", a), ctx.spec("neg", b), ctx.spec("neg", c)
+            mul = lambda x, y: "FMUL_%s(%s, %s)" % (T, F(x), F(y))
+            fma = lambda x, y, z: U("LL_FMA_%s(%s, %s, %s)" % (T, F(x), F(y), F(z)))
+            add = lambda x, y: U("FADD_%s(%s, %s)" % (T, x, y))
+            sub = lambda x, y: U("FSUB_%s(%s, %s)" % (T, x, y))
+            neg = lambda x: "(-%s)" % x
+            if kind == "fma":      # a*b + c
+                cands = [fma(a, b, c), add(mul(a, b), F(c))]
+            elif kind == "fms":    # a*b - c
+                cands = [fma(a, b, nc), sub(mul(a, b), F(c)), add(mul(a, b), F(nc))]
+            elif kind == "fnma":   # -(a*b) + c
+                cands = [fma(na, b, c), add(mul(na, b), F(c)), sub(F(c), mul(a, b))]
+            else:                  # fnms: -(a*b) - c
+                cands = [fma(na, b, nc), sub(mul(na, b), F(c)), ctx.spec("neg", fma(a, b, c))]
+            ens.append("(" + " || ".join(ctx.eq(R.lane(i), x) for x in cands) + ")")
+        ctx.ensures += conj(ens, 2)
+    return build
+
+
+for _op in ("fma", "fms", "fnma", "fnms"):
+    row(_op, "BBB", "B", types=FLOAT_TYPES, mode="ufadd", prop="C02")(_float_fma(_op))
+
+
+# ---- C08: rounding -------------------------------------------------------------------------------------------------------
+def _rounding(spec):
+    def build(ctx):
+        R = ctx.ret = bind_ret(ctx, "B")
+        a = ctx.args[0]
+        ctx.ensures += conj([ctx.spec("samenum", R.lane(i), ctx.spec(spec, a.lane(i))) for i in range(ctx.n)])
+    return build
+
+
+for _op, _sp in (("ceil", "ceil"), ("floor", "floor"), ("trunc", "trunc"), ("round", "round"), ("nearbyint", "nearbyint"), ("rint", "nearbyint")):
+    row(_op, "B", "B", types=FLOAT_TYPES, prop="C08")(_rounding(_sp))
